@@ -6,6 +6,7 @@ import (
 	"reflect"
 
 	"github.com/tidwall/geojson"
+	"github.com/tidwall/geojson/geo"
 	"github.com/tidwall/geojson/geometry"
 
 	"verif/internal/gen"
@@ -59,6 +60,14 @@ func docProbes(objs []geojson.Object, rect geometry.Rect) []geojson.Object {
 	}
 	if rect.Min.X == rect.Min.X && rect.Max.X == rect.Max.X {
 		out = append(out, geojson.NewRect(rect), geojson.NewPoint(rect.Max), geojson.NewPoint(geometry.Point{X: rect.Min.X, Y: rect.Max.Y}))
+		// circles around the rectangle's centre whose rim passes just inside / just outside its far corner
+		if rect.Valid() && rect.Max.X-rect.Min.X < 40 && rect.Max.Y-rect.Min.Y < 40 {
+			ctr := rect.Center()
+			d := geo.DistanceTo(ctr.Y, ctr.X, rect.Max.Y, rect.Max.X)
+			if d > 1 {
+				out = append(out, geojson.NewCircle(ctr, d*0.9995, 64), geojson.NewCircle(ctr, d*1.0005, 64))
+			}
+		}
 	}
 	return out
 }
